@@ -1,7 +1,7 @@
 #!/bin/bash
 # Builds the coordinator (and, later, simrewrite) offline from /verif/harness.
 set -eu
-cd /verif/harness
+cd "$(dirname "$(readlink -f "$0")")/harness"
 export GOFLAGS=-mod=mod GOPROXY=off GOSUMDB=off GOTOOLCHAIN=local CGO_ENABLED=0
 export PATH=$PATH:/usr/local/bin:/usr/local/go/bin
 mkdir -p ../bin ../evidence ../replays
